@@ -22,6 +22,11 @@ use std::sync::{Arc, Mutex};
 use std::time::Duration;
 
 const INTERVAL_MS: u64 = 10;
+pub const BIG: usize = 300 * 1024;
+
+fn big_payload() -> Vec<u8> {
+    (0..BIG).map(|i| ((i * 31 + (i >> 9)) & 0xff) as u8).collect()
+}
 
 #[derive(Clone, Copy, Debug, PartialEq, Eq)]
 pub enum Step {
@@ -40,6 +45,10 @@ pub enum Step {
     Abrupt(usize),
     ExtUni(usize),
     ExtBc,
+    /// external broadcast of a binary message larger than a socket send buffer
+    ExtBcBig,
+    /// nothing happens for one pacing unit (responsive clients answer pending pings)
+    Tick,
     Shutdown,
 }
 
@@ -51,6 +60,8 @@ pub struct Scn {
     pub steps: Vec<Step>,
     /// poll intervals the environment waits before each step
     pub pace: Vec<u8>,
+    /// the simulated clients answer every Ping they receive with a Pong (checked after every step)
+    pub responsive: bool,
 }
 
 #[derive(Clone, Debug, PartialEq)]
@@ -113,7 +124,9 @@ pub fn body(scn: &Scn, log: &Arc<Mutex<Vec<Ev>>>) {
             l3.lock().unwrap().push(Ev::D(client_of(s.peer_addr())));
         });
     if scn.heartbeat {
-        app = app.with_heartbeat(Heartbeat::new(Duration::from_millis(2 * INTERVAL_MS), Duration::from_millis(3 * INTERVAL_MS + 5)));
+        // responsive clients get a timeout that comfortably covers ping -> pong -> poll (<= 3 intervals)
+        let timeout = if scn.responsive { 6 * INTERVAL_MS + 5 } else { 3 * INTERVAL_MS + 5 };
+        app = app.with_heartbeat(Heartbeat::new(Duration::from_millis(2 * INTERVAL_MS), Duration::from_millis(timeout)));
     }
     let hook = app.connect_hook().unwrap();
     let sender = app.sender();
@@ -124,9 +137,46 @@ pub fn body(scn: &Scn, log: &Arc<Mutex<Vec<Ev>>>) {
         .name("env".into())
         .spawn(move || {
             let mut socks: Vec<Option<TcpStream>> = (0..scn2.clients).map(|_| None).collect();
+            let mut inbuf: Vec<Vec<u8>> = vec![vec![]; scn2.clients];
             for (i, st) in scn2.steps.iter().enumerate() {
                 if scn2.pace[i] > 0 {
                     thread::sleep(Duration::from_millis(INTERVAL_MS * scn2.pace[i] as u64));
+                }
+                if scn2.responsive {
+                    // read whatever the server has written so far and answer every Ping
+                    for c in 0..scn2.clients {
+                        let Some(sock) = socks[c].as_mut() else { continue };
+                        let _ = sock.set_nonblocking(true);
+                        let mut tmp = [0u8; 4096];
+                        while let Ok(n) = std::io::Read::read(sock, &mut tmp) {
+                            if n == 0 {
+                                break;
+                            }
+                            inbuf[c].extend_from_slice(&tmp[..n]);
+                        }
+                        let _ = sock.set_nonblocking(false);
+                        // complete frames only; keep the remainder
+                        loop {
+                            let b = &inbuf[c];
+                            if b.len() < 2 {
+                                break;
+                            }
+                            let (len, hdr) = match b[1] & 0x7f {
+                                126 if b.len() >= 4 => (u16::from_be_bytes([b[2], b[3]]) as usize, 4),
+                                127 if b.len() >= 10 => (u64::from_be_bytes(b[2..10].try_into().unwrap()) as usize, 10),
+                                126 | 127 => break,
+                                n => (n as usize, 2),
+                            };
+                            if b.len() < hdr + len {
+                                break;
+                            }
+                            let (op, payload) = (b[0] & 0xf, b[hdr..hdr + len].to_vec());
+                            inbuf[c].drain(..hdr + len);
+                            if op == 9 {
+                                let _ = sock.write_all(&cframe(10, true, &payload));
+                            }
+                        }
+                    }
                 }
                 match *st {
                     Step::Connect(c) => {
@@ -161,6 +211,8 @@ pub fn body(scn: &Scn, log: &Arc<Mutex<Vec<Ev>>>) {
                     }
                     Step::ExtUni(c) => sender.send(addr_of(c), Message::new(format!("xu{}", i))),
                     Step::ExtBc => sender.broadcast(Message::new(format!("xb{}", i))),
+                    Step::ExtBcBig => sender.broadcast(Message::new_binary(big_payload())),
+                    Step::Tick => {}
                     Step::Shutdown => {
                         sd_tx.send(()).ok();
                     }
@@ -200,7 +252,7 @@ pub fn check(scn: &Scn, r: &ExecResult, log: &[Ev], choices: &[usize], s: &mut S
     s.transitions += r.points.len() as u64;
     s.nontrivial += 1;
     let ctx = |what: String| {
-        json!({"what": what, "P": scn.p, "heartbeat": scn.heartbeat, "steps": format!("{:?}", scn.steps), "pace": scn.pace, "schedule": choices,
+        json!({"what": what, "P": scn.p, "heartbeat": scn.heartbeat, "responsive": scn.responsive, "steps": format!("{:?}", scn.steps), "pace": scn.pace, "schedule": choices,
                "dispatch_log": format!("{:?}", log).chars().take(500).collect::<String>(),
                "blocked_at_end": format!("{:?}", r.blocked_at_end).chars().take(300).collect::<String>()})
     };
@@ -253,7 +305,7 @@ pub fn check(scn: &Scn, r: &ExecResult, log: &[Ev], choices: &[usize], s: &mut S
         let want: Vec<&Vec<u8>> = sent[c].iter().collect();
         // with a heartbeat our (never ponging) clients are dropped 3.5 intervals after connecting: what they send
         // later than 2 intervals after connecting may legitimately go unheard, but never out of order
-        let firm = if scn.heartbeat {
+        let firm = if scn.heartbeat && !scn.responsive {
             let ct = connect_t.unwrap();
             let mut n = 0;
             for (i, st) in scn.steps.iter().enumerate() {
@@ -293,8 +345,10 @@ pub fn check(scn: &Scn, r: &ExecResult, log: &[Ev], choices: &[usize], s: &mut S
         }
         // heartbeat (no pongs from our clients): every client times out after 3.5 intervals
         let hb_timeout_t = if scn.heartbeat { connect_t.map(|t| t + 4) } else { None };
-        let must_disconnect = has_close_frame || (scn.heartbeat && (abrupt || hb_timeout_t.map_or(false, |t| t + 3 <= shutdown_t)));
-        let may_disconnect = has_close_frame || scn.heartbeat;
+        // responsive clients answer every ping: the heartbeat must never drop them
+        let hb_drops = scn.heartbeat && !scn.responsive;
+        let must_disconnect = has_close_frame || (hb_drops && (abrupt || hb_timeout_t.map_or(false, |t| t + 3 <= shutdown_t)));
+        let may_disconnect = has_close_frame || hb_drops || (scn.heartbeat && abrupt);
         if ndis > 1 {
             s.violation("disconnect handler called more than once for one client", || ctx(format!("client {} disconnects={}", c, ndis)));
             continue;
@@ -325,7 +379,7 @@ pub fn check(scn: &Scn, r: &ExecResult, log: &[Ev], choices: &[usize], s: &mut S
                 continue;
             }
         };
-        let never_leaves = close_t.is_none() && !scn.heartbeat;
+        let never_leaves = close_t.is_none() && (!scn.heartbeat || scn.responsive);
         let mut acks: Vec<Vec<u8>> = vec![];
         let mut seen: Vec<Vec<u8>> = vec![];
         let mut closes = 0;
@@ -333,6 +387,19 @@ pub fn check(scn: &Scn, r: &ExecResult, log: &[Ev], choices: &[usize], s: &mut S
         let mut bad = false;
         for (op, _fin, payload) in &frames {
             match op {
+                1 | 2 if payload.len() >= 100_000 => {
+                    if *payload != big_payload() {
+                        s.violation("a large broadcast arrived altered", || ctx(format!("client {} got {} bytes", c, payload.len())));
+                        bad = true;
+                        break;
+                    }
+                    if seen.iter().any(|p| p.len() >= 100_000) {
+                        s.violation("a broadcast reached a client more than once", || ctx(format!("client {} got the large broadcast twice", c)));
+                        bad = true;
+                        break;
+                    }
+                    seen.push(payload.clone());
+                }
                 1 | 2 => {
                     if seen.contains(payload) {
                         let kind = if payload.starts_with(b"bc:") || payload.starts_with(b"xb") { "a broadcast reached a client more than once" } else { "a unicast was delivered more than once" };
@@ -425,6 +492,16 @@ pub fn check(scn: &Scn, r: &ExecResult, log: &[Ev], choices: &[usize], s: &mut S
         }
         // broadcasts: definite expectations only where pacing separates the events by >= 2 whole intervals
         for (i, st) in scn.steps.iter().enumerate() {
+            if *st == Step::ExtBcBig {
+                let got = seen.iter().any(|p| p.len() >= 100_000);
+                let bt = times[i];
+                if connect_t.map_or(false, |t| t + 2 <= bt) && never_leaves && shutdown_t >= bt + 5 && !got {
+                    s.violation("a broadcast did not reach a client that was connected at that moment", || ctx(format!("client {} missed the large broadcast", c)));
+                    bad = true;
+                    break;
+                }
+                continue;
+            }
             let (tag, by_handler) = match st {
                 Step::ExtBc => (format!("xb{}", i), false),
                 Step::TextBc(o) => (format!("bc:c{}m{}!", o, i), true),
@@ -550,6 +627,7 @@ pub struct Family {
     pub name: String,
     pub p: usize,
     pub heartbeat: bool,
+    pub responsive: bool,
     pub clients: usize,
     pub scripts: Vec<Vec<Step>>,
     /// total deviation budget (pacing entries != 1 + non-default scheduler choices)
@@ -563,7 +641,7 @@ pub fn families(quick: bool) -> Vec<Family> {
     let d = if quick { 1 } else { 2 };
     for p in [1usize, 2] {
         let dd = if p == 1 { d + 1 } else { d };
-        f.push(Family { name: format!("1 client, all scripts of <=2 steps, P={}", p), p, heartbeat: false, clients: 1, scripts: client_scripts(0, 2), d: dd, all_pacings_at_d0: true });
+        f.push(Family { name: format!("1 client, all scripts of <=2 steps, P={}", p), p, heartbeat: false, responsive: false, clients: 1, scripts: client_scripts(0, 2), d: dd, all_pacings_at_d0: true });
     }
     // core scenarios one deviation deeper
     let core: Vec<Vec<Step>> = vec![
@@ -572,7 +650,7 @@ pub fn families(quick: bool) -> Vec<Family> {
         vec![Step::Connect(0), Step::TextBc(0), Step::Text(0)],
     ];
     for p in [1usize, 2] {
-        f.push(Family { name: format!("1 client, core scripts, P={}", p), p, heartbeat: false, clients: 1, scripts: core.clone(), d: d + 1, all_pacings_at_d0: true });
+        f.push(Family { name: format!("1 client, core scripts, P={}", p), p, heartbeat: false, responsive: false, clients: 1, scripts: core.clone(), d: d + 1, all_pacings_at_d0: true });
     }
     // two clients: all order-preserving merges of script pairs, plus external sends
     let pairs: Vec<(Vec<Step>, Vec<Step>)> = vec![
@@ -586,7 +664,7 @@ pub fn families(quick: bool) -> Vec<Family> {
         two.extend(merges(a, b));
     }
     for p in [1usize, 2] {
-        f.push(Family { name: format!("2 clients, merged scripts with external sends, P={}", p), p, heartbeat: false, clients: 2, scripts: two.clone(), d, all_pacings_at_d0: false });
+        f.push(Family { name: format!("2 clients, merged scripts with external sends, P={}", p), p, heartbeat: false, responsive: false, clients: 2, scripts: two.clone(), d, all_pacings_at_d0: false });
     }
     if !quick {
         let mut three = vec![];
@@ -596,7 +674,7 @@ pub fn families(quick: bool) -> Vec<Family> {
         for ab in merges(&a, &b) {
             three.extend(merges(&ab, &c));
         }
-        f.push(Family { name: "3 clients, merged scripts, P=2".into(), p: 2, heartbeat: false, clients: 3, scripts: three, d: 1, all_pacings_at_d0: false });
+        f.push(Family { name: "3 clients, merged scripts, P=2".into(), p: 2, heartbeat: false, responsive: false, clients: 3, scripts: three, d: 1, all_pacings_at_d0: false });
     }
     // a client vanishes without a Close and without heartbeat: it stays in the table as a dead stream whose
     // writes fail; broadcasts and unicasts must still reach the live clients, whatever the table order
@@ -608,7 +686,7 @@ pub fn families(quick: bool) -> Vec<Family> {
         }
     }
     for p in [1usize, 2] {
-        f.push(Family { name: format!("2 clients, one vanishes (no heartbeat), broadcasts, P={}", p), p, heartbeat: false, clients: 2, scripts: dead.clone(), d: if quick { 1 } else { 2 }, all_pacings_at_d0: false });
+        f.push(Family { name: format!("2 clients, one vanishes (no heartbeat), broadcasts, P={}", p), p, heartbeat: false, responsive: false, clients: 2, scripts: dead.clone(), d: if quick { 1 } else { 2 }, all_pacings_at_d0: false });
     }
     let mut dead3 = vec![];
     for gone in 0..3usize {
@@ -618,7 +696,27 @@ pub fn families(quick: bool) -> Vec<Family> {
         steps.push(Step::TextBc((gone + 1) % 3));
         dead3.push(steps);
     }
-    f.push(Family { name: "3 clients, one vanishes (no heartbeat), broadcasts, P=1".into(), p: 1, heartbeat: false, clients: 3, scripts: dead3, d: 1, all_pacings_at_d0: false });
+    f.push(Family { name: "3 clients, one vanishes (no heartbeat), broadcasts, P=1".into(), p: 1, heartbeat: false, responsive: false, clients: 3, scripts: dead3, d: 1, all_pacings_at_d0: false });
+    // heartbeat on and clients that answer every ping: nobody may be dropped, however many clients there are
+    for n in [2usize, 3] {
+        let mut steps: Vec<Step> = (0..n).map(Step::Connect).collect();
+        steps.push(Step::Text(n - 1));
+        steps.extend(std::iter::repeat(Step::Tick).take(12));
+        f.push(Family { name: format!("heartbeat with {} clients that answer every ping, P=1", n), p: 1, heartbeat: true, responsive: true, clients: n, scripts: vec![steps], d: 1, all_pacings_at_d0: false });
+    }
+    // a broadcast larger than a socket send buffer, to clients that were idle at the last poll
+    for p in [1usize, 2] {
+        f.push(Family {
+            name: format!("large broadcast to idle clients, P={}", p),
+            p,
+            heartbeat: false,
+            responsive: false,
+            clients: 2,
+            scripts: vec![vec![Step::Connect(0), Step::Connect(1), Step::Tick, Step::ExtBcBig, Step::Tick, Step::Text(0)], vec![Step::Connect(0), Step::Text(0), Step::Connect(1), Step::ExtBcBig]],
+            d: 1,
+            all_pacings_at_d0: false,
+        });
+    }
     // heartbeat on: silent clients time out, vanished clients are detected, closes still give one disconnect
     let hb: Vec<Vec<Step>> = vec![
         vec![Step::Connect(0), Step::Text(0)],
@@ -627,12 +725,13 @@ pub fn families(quick: bool) -> Vec<Family> {
         vec![Step::Connect(0), Step::Text(0), Step::Abrupt(0)],
     ];
     for p in [1usize, 2] {
-        f.push(Family { name: format!("heartbeat, 1 client, P={}", p), p, heartbeat: true, clients: 1, scripts: hb.clone(), d: d + 1, all_pacings_at_d0: true });
+        f.push(Family { name: format!("heartbeat, 1 client, P={}", p), p, heartbeat: true, responsive: false, clients: 1, scripts: hb.clone(), d: d + 1, all_pacings_at_d0: true });
     }
     f.push(Family {
         name: "heartbeat, 2 clients, P=1".into(),
         p: 1,
         heartbeat: true,
+        responsive: false,
         clients: 2,
         scripts: merges(&[Step::Connect(0), Step::Abrupt(0)], &[Step::Connect(1), Step::Text(1), Step::Close(1)]),
         d: 1,
@@ -648,7 +747,8 @@ pub fn run(mut cx: Ctx) -> ! {
     let t0 = std::time::Instant::now();
     let mut per = vec![];
     for fam in &fams {
-        let tail: u8 = if fam.heartbeat { 9 } else { 5 };
+        // responsive clients only answer pings at environment steps: shut down before the silence could time them out
+        let tail: u8 = if fam.responsive { 2 } else if fam.heartbeat { 9 } else { 5 };
         // one job per (script, pacing vector); jobs run in parallel, each explored by a single worker
         let mut jobs: Vec<(Scn, usize)> = vec![];
         for script in &fam.scripts {
@@ -665,7 +765,7 @@ pub fn run(mut cx: Ctx) -> ! {
             }
             for (pace, used) in plist {
                 let sched_d = if used == usize::MAX { 0 } else { fam.d - used };
-                jobs.push((Scn { p: fam.p, heartbeat: fam.heartbeat, clients: fam.clients, steps: steps.clone(), pace }, sched_d));
+                jobs.push((Scn { p: fam.p, heartbeat: fam.heartbeat, clients: fam.clients, steps: steps.clone(), pace, responsive: fam.responsive }, sched_d));
             }
         }
         use rayon::prelude::*;
@@ -729,6 +829,8 @@ fn parse_steps(txt: &str) -> Vec<Step> {
                 "Abrupt" => Step::Abrupt(arg),
                 "ExtUni" => Step::ExtUni(arg),
                 "ExtBc" => Step::ExtBc,
+                "ExtBcBig" => Step::ExtBcBig,
+                "Tick" => Step::Tick,
                 _ => Step::Shutdown,
             }
         })
@@ -741,7 +843,7 @@ pub fn replay(case: &serde_json::Value) -> i32 {
     let pace: Vec<u8> = case["pace"].as_array().map(|a| a.iter().map(|x| x.as_u64().unwrap_or(1) as u8).collect()).unwrap_or_default();
     let schedule: Vec<usize> = case["schedule"].as_array().map(|a| a.iter().map(|x| x.as_u64().unwrap_or(0) as usize).collect()).unwrap_or_default();
     let clients = steps.iter().filter(|x| matches!(x, Step::Connect(_))).count();
-    let scn = Scn { p: case["P"].as_u64().unwrap_or(1) as usize, heartbeat: case["heartbeat"].as_bool().unwrap_or(false), clients, steps, pace };
+    let scn = Scn { p: case["P"].as_u64().unwrap_or(1) as usize, heartbeat: case["heartbeat"].as_bool().unwrap_or(false), clients, steps, pace, responsive: case["responsive"].as_bool().unwrap_or(false) };
     let (r, log) = run_scn(&scn, schedule.clone());
     println!("scenario: {:?}", scn);
     println!("dispatch log: {:?}", log);
